@@ -7,6 +7,7 @@ mod json;
 mod props;
 mod run;
 mod sym;
+mod views;
 
 use json::J;
 use props::Tier;
